@@ -1396,7 +1396,18 @@ impl<'l> CelCompiler<'l> {
                             comp.depth = self.depth;
                             comp.operators = self.operators;
 
-                            let (e, _) = comp.parse_expression()?;
+                            // locations inside the embedded text are relative to that text:
+                            // report its errors at the format string itself
+                            let (e, _) = comp.parse_expression().map_err(|err| match err {
+                                CelError::Syntax(se) => {
+                                    let at = SyntaxError::from_location(loc.start());
+                                    match se.message() {
+                                        Some(msg) => at.with_message(msg.to_string()).into(),
+                                        None => at.into(),
+                                    }
+                                }
+                                other => other,
+                            })?;
                             self.operators = comp.operators;
                             details.union_from(e.details().clone());
 
